@@ -28,6 +28,42 @@ CLAIMED = {
         "DESIGN.md section 4, C01",
         "numpy / msgpack value semantics trusted.",
     ),
+    "C12": (
+        "effect summaries over the resolved call graph + reachability of hidden state + data-flow facts",
+        "Decides that Structure.join never writes its inputs (effect summaries: attribute/item stores, augmented assignment, "
+        "mutator methods, views, transitively through resolved callees with dynamic dispatch along the static MRO); that no "
+        "function reachable from join reads a global RNG / clock or mutates process- or module-global state; that an override "
+        "with a falsy legitimate value (charge=0) is tested with `is None`; and - by role-based data-flow facts that survive "
+        "renaming of locals - the constitution of the product (atom filter, copy_atoms, bond filter + evolve through the atom "
+        "map, exactly one fresh bond between the former neighbours), the block order and masks of the stacked coordinates, the "
+        "charge/multiplicity arithmetic, that the requested length scales the unit vector along A's direction, and the "
+        "rotation's arguments.",
+        "DESIGN.md section 4, C12",
+        "rigidity, handedness, bond direction and length as numbers, and the rotamer choice are numerical and not decided.",
+    ),
+    "C17": (
+        "shared-descriptor store rule + runner shape on the ast/CFG + control dependence of the exit status",
+        "Decides that Job.__get__ keeps no per-driver state on the descriptor shared by all driver instances (no store rooted at "
+        "self; a fresh copy carrying executable/nprocs/envars that consults the driver instance is returned); that run_local uses a "
+        "with-managed scratch directory, runs the commands in order with identical cwd/env (a copy of os.environ plus job.envars) "
+        "at every subprocess site, leaves the loop at the first non-zero return code, reads captures back under the names it wrote, "
+        "returns files as bytes with the loaded job's hash; that the success exit is guarded by both conditions; and that the "
+        "recorded exit code depends on the failure position and on the returned files.",
+        "DESIGN.md section 4, C17",
+        "subprocess behaviour and captured text are not decided.",
+    ),
+    "C18": (
+        "set-provenance lattice + branch narrowing + control dependence of reuse and of destination stores",
+        "Decides, alike for jobmap and jobmap_sge, that the work list is provably a subset of the source keys; that the generator "
+        "of per-conformer inputs is not used as a JobInput in the vectorised branch; that skipping a cached item is control-"
+        "dependent on exitcode == 0 and on input_hash == the hash of the current input of that branch (bypassed only by "
+        "strict_hash=False); that every destination store is in the else of the try around process(), inside writing(), keyed "
+        "from the work list, and preceded by an exit-code test of the loaded output(s); that nothing deletes from the "
+        "destination; that every collection access is inside the matching session; and (shared with C17) that a failed run "
+        "is recorded as failed.",
+        "DESIGN.md section 4, C18",
+        "actual executions and counters are not decided.",
+    ),
     "C14": (
         "array co-update per block + re-entrant iteration + view completeness along the MRO",
         "Decides that every block of every ConformerEnsemble method that rebinds one of _coords/_atomic_charges/_weights with a "
